@@ -33,3 +33,28 @@ fn c16_recvmsg() {
         kani::cover!(WAITS > 0 && MOVED > 0, "C16.cover_would_block_after_progress");
     }
 }
+
+/// thorough tier: three entries (see c16_readv3)
+#[kani::proof]
+#[kani::unwind(5)]
+#[kani::stub(crate::syscall::unix::set_non_blocking_flag, set_flag_stub)]
+#[kani::stub(crate::syscall::is_non_blocking, is_non_blocking_stub)]
+#[kani::stub(crate::common::now, now_stub)]
+#[kani::stub(crate::syscall::recv_time_limit, limit_stub)]
+#[kani::stub(crate::net::EventLoops::wait_read_event, wait_stub)]
+fn c16_recvmsg3() {
+    let nb = begin(3);
+    let iov = begin_vectored_n(true, 3);
+    let mut m: msghdr = unsafe { std::mem::zeroed() };
+    m.msg_iov = iov.cast_mut();
+    m.msg_iovlen = 3;
+    let flags: c_int = kani::any(); // every flag word: the wrapper must not change what it hands down because of a flag
+    let nio: NioRecvmsgSyscall<Kernel> = NioRecvmsgSyscall::default();
+    let r = nio.recvmsg(None, 3, &raw mut m, flags);
+    check_common(r, nb, vtotal());
+    check_read_buffers();
+    unsafe {
+        kani::cover!(MOVED > LENS[0] && LENS[0] > 0 && CALLS >= 2, "C16.cover_transfer_crossing_an_iovec_boundary");
+        kani::cover!(WAITS > 0 && MOVED > 0, "C16.cover_would_block_after_progress");
+    }
+}
